@@ -336,7 +336,7 @@ func (g *aspGen) strLit() ex {
 		g.meta.NonASCII = true
 	}
 	e := atom(quote(w, g.chance(15, "single")))
-	if len(w) >= 2 && g.chance(4, "adjacent") { // implicit concatenation of adjacent literals
+	if len(w) >= 2 && g.chance(2, "adjacent") { // implicit concatenation of adjacent literals
 		r := []rune(w)
 		h := len(r) / 2
 		e = atom(quote(string(r[:h]), false) + " " + quote(string(r[h:]), false))
